@@ -22,6 +22,8 @@ def design_configs(tier, schedulers=("eager",), with_cond=False, n_random=None, 
     cfgs = []
     for name in family.curated():
         for s in schedulers:
+            if s == "rr" and name in EAGER_ONLY:
+                continue  # a run-dependent ready inside one conflict component is only legal under the default scheduler
             cfgs.append({"design": name, "scheduler": s})
     if with_cond:
         for name in family.cond_designs():
@@ -38,14 +40,60 @@ def design_configs(tier, schedulers=("eager",), with_cond=False, n_random=None, 
     return cfgs
 
 
+def construct_only(spec):
+    """Run the user-level construction of a design (no manager, no netlist) to get its bodies and call sites."""
+    from transactron.utils.dependencies import DependencyContext, DependencyManager
+    from designs.build import DesignTop
+    from designs.oracle import Unbuilt
+
+    d = DesignTop(spec)
+    with DependencyContext(DependencyManager()):
+        d.elaborate(None)
+    return Oracle(Unbuilt(d, spec))
+
+
+def wellformed_random_spec(seed, relations=True, gen=None):
+    """Seeded random DesignSpec that the spec-level oracle classifies as well-formed (up to 24 sub-seeds are
+    tried; raw random specs are ill-formed more often than not and are exercised by C11)."""
+    from contracts.c11 import well_formed
+
+    gen = gen or (lambda rng: family.random_spec(rng, allow_relations=relations))
+    for j in range(24):
+        rng = random.Random(seed * 64 + j)
+        spec = gen(rng)
+        try:
+            o = construct_only(spec)
+            if not well_formed(o) and not _same_transaction_relation(o):
+                return spec
+        except RecursionError:
+            continue
+    return None
+
+
+def _same_transaction_relation(o):
+    """add_conflict whose endpoints are reached from one transaction: known finding (C02/C11), kept out of the
+    other properties' random designs so that it is reported in one place only"""
+    for rel in o.b.spec.get("relations", []):
+        if rel[0] == "conflict":
+            a = rel[1] if rel[1] in o.bodies else o.d.resolve(rel[1])
+            b = rel[2] if rel[2] in o.bodies else o.d.resolve(rel[2])
+            if set(o.transactions_for(a)) & set(o.transactions_for(b)):
+                return True
+    return False
+
+
 def spec_of(cfg):
     name = cfg["design"]
     if name.startswith("random:"):
-        rng = random.Random(int(name.split(":")[1]))
-        spec = family.random_spec(rng, allow_relations=cfg.get("relations", True))
+        spec = wellformed_random_spec(int(name.split(":")[1]), cfg.get("relations", True))
+        if spec is None:
+            raise Skip("no well-formed design found for this seed")
     else:
         spec = {**family.curated(), **family.cond_designs()}[name]
     return family.with_scheduler(spec, cfg.get("scheduler", "eager"))
+
+
+EAGER_ONLY = {"schedule_before_conflicting"}
 
 
 class Skip(Exception):
@@ -56,12 +104,7 @@ def build(cfg, ctx, need_wellformed=True):
     """Elaborate the design with the real manager. Ill-formed random designs (rejected by the library) are
     skipped here; C11 checks that rejection coincides with the oracle's WellFormed."""
     spec = spec_of(cfg)
-    try:
-        b = Built(spec)
-    except Exception as e:  # noqa: BLE001
-        if cfg["design"].startswith("random:"):
-            raise Skip(f"{type(e).__name__}: {str(e)[:80]}")
-        raise
+    b = Built(spec)
     o = Oracle(b)
     ctx.use(b.hw, xval_cycles=8 if ctx.tier == "quick" else 40)
     return b, o
